@@ -512,6 +512,16 @@ func c14Regex(ctx *Ctx, n int) {
 		o1.entries, o1.seen = append([]string{}, o.entries...), map[string]bool{}
 		c := glueCase{name: "regex", goNm: "Regex", f: stdlib.RegexFunc, args: []cty.Value{pat, str}, orc: o1}
 		idx := re.FindStringSubmatchIndex(str.AsString())
+		if idx != nil {
+			// the law about the regexp package that C14.regex_never_panics assumes (IdxOK): one pair per group incl.
+			// the whole match, every pair (-1,-1) or 0 <= a <= b <= len(subject), the whole match always present
+			okIdx := len(idx) == 2*(len(names)+1) && idx[0] >= 0
+			for j := 0; okIdx && j+1 < len(idx); j += 2 {
+				a, b := idx[j], idx[j+1]
+				okIdx = (a < 0 && b < 0) || (0 <= a && a <= b && b <= len(str.AsString()))
+			}
+			ctx.Probe("regexp-submatch-index-shape", okIdx, fmt.Sprintf("FindStringSubmatchIndex(%q, %q) = %v", pat.AsString(), str.AsString(), idx))
+		}
 		if ty == cty.NilType {
 			c.wantErr = true
 		} else {
